@@ -10,6 +10,7 @@ import (
 	"os/exec"
 	"path/filepath"
 	"regexp"
+	"runtime"
 	"sort"
 	"strconv"
 	"strings"
@@ -452,6 +453,12 @@ func Supervise(p *Prop, tier string) int {
 		rep := map[string]interface{}{
 			"property": p.ID, "tier": tier, "seed": seed, "class": v.Class, "violation_class": v.VClass,
 			"key_hex": v.KeyHex, "message": v.Message, "input": v.Input, "shard": v.Shard, "build": v.Build,
+			"gomaxprocs": func() int {
+				if p.OwnProcs {
+					return 0
+				}
+				return ProcsOf(v.Shard)
+			}(),
 			"replay": fmt.Sprintf("./run_check.sh replay %s", path),
 		}
 		js, _ := json.MarshalIndent(rep, "", " ")
@@ -696,6 +703,7 @@ func Replay(path string) int {
 		Property string `json:"property"`
 		Class    string `json:"class"`
 		KeyHex   string `json:"key_hex"`
+		Procs    int    `json:"gomaxprocs"`
 	}
 	if err := json.Unmarshal(js, &rep); err != nil {
 		fmt.Println("bad replay file:", err)
@@ -720,6 +728,9 @@ func Replay(path string) int {
 	if rep.Class == "race-detector" {
 		fmt.Println("race reports are replayed by re-running the check (schedule dependent)")
 		return 2
+	}
+	if rep.Procs > 0 {
+		runtime.GOMAXPROCS(rep.Procs) // the setting of the shard process that observed the violation
 	}
 	viol, vclass, herr := JudgeOnce(p, rep.Class, key)
 	if herr != "" {
